@@ -809,6 +809,38 @@ def fam_diamond(rng):
     return net
 
 
+def fam_branchy(rng):
+    """random DAGs with skip connections, concatenations and several outputs: many live ranges of different sizes that
+    overlap in time, so that the first placement of the HillClimb allocator is not optimal and its randomised search runs"""
+    net = Net("branchy")
+    dt = "int8"
+    h, w = rng.choice([(8, 8), (16, 16), (12, 8), (6, 10)])
+    x = _inp(net, rng, [1, h, w, rng.choice([3, 4, 8])], dt)
+    nodes = [x]
+    for _ in range(rng.randrange(6, 12)):
+        ch = rng.choice(["conv", "conv", "add", "concat", "conv1"])
+        a = rng.choice(nodes)
+        if ch == "conv":
+            t = conv2d(net, rng, a, rng.choice([8, 12, 24, 32]), (3, 3), (1, 1), (1, 1), "SAME", "NONE")
+        elif ch == "conv1":
+            t = conv2d(net, rng, a, rng.choice([8, 16]), (1, 1), (1, 1), (1, 1), "SAME", "NONE")
+        elif ch == "add":
+            same = [n for n in nodes if list(n.shape) == list(a.shape)]
+            t = elementwise(net, rng, "ADD", a, rng.choice(same))
+        else:
+            b = rng.choice(nodes)
+            b2 = net.tensor(list(b.shape), dt, a.scale, a.zp)
+            if (b.scale, b.zp) != (a.scale, a.zp):
+                net.op("QUANTIZE", [b], [b2], {})
+            else:
+                b2 = b
+            t = concat(net, rng, [a, b2], 3)
+        nodes.append(t)
+    outs = [n for n in nodes[1:] if not any(any(n is i for i in op["inputs"]) for op in net.ops)] or [nodes[-1]]
+    net.output(*outs[:4])
+    return net
+
+
 def fam_mixed_cpu(rng):
     """NPU segments separated by CPU-only operators; several NPU subgraphs; duplicated inputs"""
     net = Net("mixed_cpu")
@@ -1580,7 +1612,7 @@ def fam_multi_subgraph(rng, kind=None):
 
 FAMILIES = {
     "conv_chain": fam_conv_chain, "conv_chain_big": lambda rng: fam_conv_chain(rng, big=True), "single": fam_single_op,
-    "diamond": fam_diamond, "mixed_cpu": fam_mixed_cpu, "unsupported": fam_unsupported, "lut_heavy": fam_lut_heavy, "lut_mixed": fam_lut_mixed, "siamese": fam_siamese, "multi_input": fam_multi_input, "deep_chain": fam_deep_chain, "pow2_rescale": fam_pow2_rescale, "narrowing_chain": fam_narrowing_chain, "one_channel_tail": fam_one_channel_tail, "memcpy_reshape": fam_memcpy_reshape, "mixed_exact": fam_mixed_exact, "weights_heavy": fam_weights_heavy, "ew_dag": fam_ew_dag, "multi_custom": fam_multi_custom,
+    "diamond": fam_diamond, "mixed_cpu": fam_mixed_cpu, "unsupported": fam_unsupported, "lut_heavy": fam_lut_heavy, "lut_mixed": fam_lut_mixed, "siamese": fam_siamese, "multi_input": fam_multi_input, "deep_chain": fam_deep_chain, "pow2_rescale": fam_pow2_rescale, "narrowing_chain": fam_narrowing_chain, "one_channel_tail": fam_one_channel_tail, "memcpy_reshape": fam_memcpy_reshape, "branchy": fam_branchy, "mixed_exact": fam_mixed_exact, "weights_heavy": fam_weights_heavy, "ew_dag": fam_ew_dag, "multi_custom": fam_multi_custom,
 }
 FAMILIES["multi_subgraph"] = fam_multi_subgraph
 
